@@ -17,7 +17,7 @@ SCHED_SRC = ["vx/vx.c", "sched/sched.c", "h/h_c19.c"]
 FREE_SRC = ["vx/vx.c", "h/h_c19.c"]
 INC = ["-I", os.path.join(vlib.VERIF, "sched")]
 
-BODIES = {1: "post", 2: "queue", 3: "worker", 4: "timer", 5: "console", 6: "pileup", 7: "event"}
+BODIES = {1: "post", 2: "queue", 3: "worker", 4: "timer", 5: "console", 6: "pileup", 7: "event", 8: "workers"}
 
 
 def build(ck):
@@ -48,7 +48,10 @@ RULE = ("every schedule with at most P preemptions (P = budget; switches forced 
         "[event] platform_event_t with two waiter threads: manual-reset x {timed+timed, timed+infinite, infinite+infinite} with one set(), auto-reset x "
         "{infinite+infinite, timed+infinite} with two set(): every infinite waiter released, a manual-reset event stays signalled until reset, auto-reset "
         "accounting sets == released + still-signalled; "
-        "scheduling points (before the operation; additionally after pthread_mutex_unlock and pthread_create): pthread_create/join, mutex lock/trylock/unlock, cond wait/timedwait/clockwait/signal/broadcast, nanosleep/usleep, "
+        "[workers] two workers alive at once, each polling async_worker_should_stop(async_worker_current()) as the console worker does; stop + join(50) of "
+        "each in 4 orders: every join true, async_worker_current() on a worker's thread is that worker; "
+        "scheduling points (before the operation; additionally after pthread_mutex_unlock and pthread_create, and at the entry of a condition wait "
+        "while the mutex is still held): pthread_create/join, mutex lock/trylock/unlock, cond wait/timedwait/clockwait/signal/broadcast, nanosleep/usleep, "
         "clock_gettime, epoll_wait, select, read/write on eventfd and the console pipe; virtual clock; CHESS fairness for yielding threads; "
         "horizon 700 scheduling points per execution; no state merging (plain stateless DFS)")
 
@@ -101,6 +104,7 @@ def run(ck):
         ck.explore(exe, ["--body=5", "--waits=6"], "console", budget=2, deadline_s=dl)
         ck.explore(exe, ["--body=6"], "pileup", budget=2, deadline_s=dl)
         ck.explore(exe, ["--body=7"], "event", budget=2, deadline_s=dl)
+        ck.explore(exe, ["--body=8"], "workers", budget=2, deadline_s=dl)
     else:
         # bound 3 everywhere (DESIGN), and one more where it is cheap
         dl, iters, el_ms = 1500, 1000, 80000
@@ -112,6 +116,7 @@ def run(ck):
         ck.explore(exe, ["--body=5", "--waits=8"], "console", budget=4, deadline_s=dl)
         ck.explore(exe, ["--body=6"], "pileup", budget=4, deadline_s=dl)
         ck.explore(exe, ["--body=7"], "event", budget=4, deadline_s=dl)
+        ck.explore(exe, ["--body=8"], "workers", budget=3, deadline_s=dl)
     sched_parts = list(ck.parts)
     ck.enum(free, ["--iters=%d" % iters, "--watchdog-ms=%d" % (el_ms * 3 // 4)], "tsan", batch=1, deadline_s=dl, timeout_ms=el_ms, rotate=0)
     tsan = ck.parts[-1] if len(ck.parts) > len(sched_parts) else {}
@@ -148,7 +153,8 @@ def selftest(ck):
              ("timer-obs", ["--body=4", "--vmask=1", "--selftest=4"], 0, "C19:timer:callback-after-stop"),
              ("console-obs", ["--body=5", "--vmask=1", "--waits=5", "--selftest=5"], 0, "C19:console:line-lost"),
              ("pileup-obs", ["--body=6", "--vmask=1", "--selftest=6"], 0, "C19:pileup:accepted-not-delivered-exactly-once-in-order"),
-             ("event-obs", ["--body=7", "--vmask=1", "--selftest=7"], 0, "C19:event:manual-reset-event-consumed-by-a-wait")]
+             ("event-obs", ["--body=7", "--vmask=1", "--selftest=7"], 0, "C19:event:manual-reset-event-consumed-by-a-wait"),
+             ("workers-obs", ["--body=8", "--vmask=1", "--selftest=8"], 0, "C19:workers:stop-not-observed-join-times-out")]
     for tag, args, budget, want in cases:
         ck2 = vlib.Check("C19", "quick", 0, LEVEL)
         ck2.explore(exe, args, "selftest-" + tag, budget=budget, jobs=8)
